@@ -215,6 +215,13 @@ pub fn conformant_tag(kind: u32, key: u64, n: usize, sel: u32) -> Vec<u8> {
             let mut body = w(key, 776, 8);
             // VBE memory model (mode info byte 27) has 8 defined values.
             body[8 + 512 + 27] %= 8;
+            // every second tag: a controller block as a video BIOS returns it -
+            // signature "VESA" (or "VBE2"), BCD version 1.0 / 1.2 / 2.0 / 3.0
+            if (sel >> 16) & 1 == 1 {
+                body[8..12].copy_from_slice(if (sel >> 17) & 3 == 3 { b"VBE2" } else { b"VESA" });
+                let ver = [0x0100u16, 0x0102, 0x0200, 0x0300][((sel >> 19) & 3) as usize];
+                body[12..14].copy_from_slice(&ver.to_le_bytes());
+            }
             tag(7, &body)
         }
         8 => {
@@ -224,6 +231,17 @@ pub fn conformant_tag(kind: u32, key: u64, n: usize, sel: u32) -> Vec<u8> {
             // bits per pixel: small, realistic values in 3 of 4 tags
             if (sel >> 9) & 3 != 0 {
                 body[20] = [1u8, 2, 4, 8, 15, 16, 24, 32][((sel >> 11) & 7) as usize];
+            }
+            // the reserved u16 behind the type byte: both bytes markers, only the
+            // first, only the second, or none (zero, as boot loaders write it)
+            match (sel >> 24) & 3 {
+                1 => body[22] = 0,
+                2 => body[23] = 0,
+                3 => {
+                    body[22] = 0;
+                    body[23] = 0;
+                }
+                _ => {}
             }
             // every second tag: an address and a geometry that occur in practice
             // (EGA text buffer, VGA window, PCI BARs; text and VESA modes)
